@@ -123,7 +123,10 @@ pub fn random_case(rng: &mut Rng, stage_nonzero: bool) -> VocCase {
             let sp: Vec<f64> = if stage == 0 {
                 base.iter().map(|x| x + rng.normal() * 0.05).collect()
             } else {
-                let mut v = vec![if log_gain { rng.uniform(-1.0, 1.0) } else { rng.uniform(0.3, 3.0) }];
+                // value class: a gain of exactly one (linear 1.0, log 0.0 / -0.0) every seventh case (seeded change C13g: a
+        // "multiply by one" shortcut in the normalisation that also skips the assignment of element 0)
+        let mut v = vec![if rng.chance(0.15) { if log_gain { if rng.chance(0.5) { 0.0 } else { -0.0 } } else { 1.0 } }
+            else if log_gain { rng.uniform(-1.0, 1.0) } else { rng.uniform(0.3, 3.0) }];
                 v.extend(random_lsp(rng, nmcp - 1));
                 v
             };
@@ -374,7 +377,9 @@ pub fn gen_c13(seed: u64, thorough: bool) {
         let log_gain = rng.chance(0.5);
         let rate = *rng.pick(&[48000usize, 96000]);
         let beta = if i % 4 == 3 { rng.uniform(0.05, 0.4) } else { 0.0 };
-        let mut v = vec![if log_gain { rng.uniform(-1.0, 1.0) } else { rng.uniform(0.3, 3.0) }];
+        // value class: a gain of exactly one (linear 1.0, log 0.0 / -0.0) every seventh case
+        let mut v = vec![if i % 7 == 3 { if log_gain { if rng.chance(0.5) { 0.0 } else { -0.0 } } else { 1.0 } }
+            else if log_gain { rng.uniform(-1.0, 1.0) } else { rng.uniform(0.3, 3.0) }];
         v.extend(random_lsp(&mut rng, order));
         let k = *rng.pick(&[65usize, 129, 257]);
         println!("{}", c13_case(order, stage, log_gain, rate, alpha, beta, &v, k));
@@ -410,6 +415,16 @@ pub fn gen_c14(seed: u64, thorough: bool) {
         if nmcp > 1 && c[1].abs() < 0.3 {
             c[1] = if c[1] < 0.0 { -0.3 } else { 0.3 };
         }
+        // value class (every eighth case): the first-order term of the UNWARPED cepstrum vanishes, so the second sample of
+        // the impulse response the post-filter measures is zero — c1 = +-0 at alpha 0, the cancelling c1 otherwise
+        // (seeded change C14g: the impulse-response recursion stopped at the first near-zero sample)
+        if i % 8 == 3 && nmcp > 2 {
+            let first = |c: &[f64]| unwarped_first_order(c, alpha);
+            let mut c0 = c.clone(); c0[1] = 0.0;
+            let mut c1 = c.clone(); c1[1] = 1.0;
+            let (a0, a1) = (first(&c0), first(&c1));
+            c[1] = if alpha == 0.0 { if rng.chance(0.5) { 0.0 } else { -0.0 } } else { -a0 / (a1 - a0) };
+        }
         let mk = |beta: f64| VocCase {
             nmcp, nlpf: 0, stage: 0, log_gain: false, rate, alpha, beta, volume: 1.0, fperiod,
             frames: (0..3).map(|_| (f0.ln(), c.clone(), vec![])).collect(),
@@ -424,6 +439,19 @@ pub fn gen_c14(seed: u64, thorough: bool) {
         println!("{}", line);
     }
     gen_c14_mixed(&mut rng, if thorough { 600 } else { 40 });
+}
+
+/// first-order coefficient of the cepstrum after undoing the frequency warping (SPTK `freqt` with `-alpha`, target order 1)
+fn unwarped_first_order(c: &[f64], alpha: f64) -> f64 {
+    let a = -alpha;
+    let (mut g0, mut g1) = (0.0f64, 0.0f64);
+    for i in (0..c.len()).rev() {
+        let d0 = g0;
+        let d1 = g1;
+        g0 = c[i] + a * d0;
+        g1 = (1.0 - a * a) * d0 + a * d1;
+    }
+    g1
 }
 
 /// mixed voicing: the post-filter acts on every frame, voiced or not (seeded change C14f: skipped on noise-excited frames)
